@@ -105,7 +105,8 @@ def _case(draw):
         others.append({'v': vals, 'e': errs})
     perm = draw(st.permutations(list(range(size))))
     return {'shape': shape, 'kinds': kinds, 'ref': {'v': refv, 'e': refe}, 'others': others,
-            'alpha': alpha, 'ignore_empty': ignore, 'perm': list(perm)}
+            'alpha': alpha, 'ignore_empty': ignore, 'perm': list(perm),
+            'layout': draw(st.sampled_from(['C', 'C', 'F'])) if len(shape) >= 2 else 'C'}
 
 
 def strategy(tier):
@@ -180,8 +181,9 @@ def run_case(case):
 
 
 def _evaluate(case, shape, kinds, ref, oths):
-    rds = statgen.make_dataset(shape, kinds, ref['v'], ref['e'], 'ref')
-    ods = [statgen.make_dataset(shape, kinds, o['v'], o['e'], f'o{i}')
+    lay = case.get('layout', 'C')
+    rds = statgen.make_dataset(shape, kinds, ref['v'], ref['e'], 'ref', lay)
+    ods = [statgen.make_dataset(shape, kinds, o['v'], o['e'], f'o{i}', lay)
            for i, o in enumerate(oths)]
     test = TestChi2(rds, *ods, name='c07', alpha=case['alpha'],
                     ignore_empty=case['ignore_empty'])
